@@ -26,7 +26,7 @@ ASSUMPTIONS = ['states are abstracted to structure (types, chain names, configur
 
 BIN = ['+', '-', '*', '/']
 SCAL = [('int', 2), ('float', 0.5), ('complex', 1 + 2j), ('npfloat', np.float64(0.75)), ('npint', np.int64(3)),
-        ('npcomplex', np.complex128(0.5 - 1j))]
+        ('npcomplex', np.complex128(0.5 - 1j)), ('complex-real', complex(2.0, 0.0)), ('npcomplex-real', np.complex128(3.0))]
 UNARY = list(ref.UNARY)
 import operator
 OPS = {'+': operator.add, '-': operator.sub, '*': operator.mul, '/': operator.truediv, '**': operator.pow}
@@ -582,7 +582,7 @@ def main(tier, seed, jobs):
              'events_per_state': len(all_events()), 'rejection_requests': tot_r['n'], 'frontier_not_expanded': len(frontier),
              'explanation': 'every transition executes the real operation on the real objects held in the registers; WF is evaluated on every produced object'}
     rule = ('BFS to depth %d from %d initial register pairs over %d events per state (binary operators in both orders, scalar / '
-            'ndarray partners of 6+1 kinds in both positions, **, 17 functions, reweight, correlate, merge_obs, gamma_method, '
+            'ndarray partners of 8+1 kinds in both positions, **, 17 functions, reweight, correlate, merge_obs, gamma_method, '
             'least_squares, find_root, json/dobs/pickle/jackknife round trips, CObs construction and parts), states merged on '
             'structure; plus the rejection product (11 malformed kinds x 1..3 chains x 3 positions x 3 carriers, 5 covariance '
             'kinds x 3 dimensions).  Non-trivial = every executed (not disabled) transition and every rejection request' % (
